@@ -117,10 +117,19 @@ def gen_refs_program(rng):
         starts.append("    %s\n      %s" % (head, what))
     n = rng.randint(2, 6)
     extra = rng.choice(["", "  activate side\n", "  start side\n"])
+    bad = ""
+    if rng.random() < 0.25:
+        # a flow with an invalid reference pattern (the interpreter raises a plain Python exception while parking the head):
+        # it fails alone; everything else stays exactly indexed
+        extra += "  start bad watcher\n"
+        bad = "flow bad watcher\n  match E3()\n  start A0Action(n=7) as $b\n  match $b.%s()\n\n" % rng.choice(["Foo", "Paused"])
+        if rng.random() < 0.5:
+            bad = "flow bad watcher\n  match E3()\n  start fb as $b\n  match $b.%s()\n\n" % rng.choice(["Foo", "Paused", "Resumed"])
     src = (
         "flow fa\n  match E1()\n\nflow fb\n  match E2()\n\n"
         "flow wait ref $r\n  match $r.Finished()\n\n"
         "flow side\n  start A%dAction(n=99) as $s\n  await wait ref $s\n  match E3()\n\n" % rng.randint(0, 2)
+        + bad
         + "flow main\n" + extra + "  $i = 0\n  while $i < %d\n" % n + "\n".join(starts) + "\n    " + wait + "\n    $i = $i + 1\n  match Never()\n"
     )
     hist = []
@@ -145,7 +154,18 @@ def setup_worker():
     orig = sm.run_to_completion
 
     def hooked(state, ev):
-        r = orig(state, ev)
+        try:
+            r = orig(state, ev)
+        except Exception:
+            # RuntimeV2_x.process_events catches this and goes on with the very same state: it must be as consistent as
+            # after a normal return (checked only when the run is driven through that API)
+            if _W.get("api_drive"):
+                pr, facts = inv_c09.check_state(state)
+                _W["states"] += 1
+                _W["facts"].append(facts)
+                for k_, d_ in pr:
+                    _W["problems"].append((k_ + "@after-exception-swallowed-by-process_events", d_))
+            raise
         _W["hooked"] += 1
         pr, facts = inv_c09.check_state(state)
         _W["states"] += 1
@@ -197,6 +217,7 @@ def _drive(src, history, seed, base):
     L["clock"].reset()
     rng = random.Random(seed ^ 0x5EED)
     _begin()
+    _W["api_drive"] = bool(base.get("api"))
     fed = []
     api = None
     try:
